@@ -294,7 +294,14 @@ func c11Run(c *fw.Ctx, cs *c11Case, vtWait func()) {
 		conn.WriteSleep = time.Duration(cs.WriteSleep) * time.Microsecond
 		conn.WriteSleepEvery = 8
 	}
-	s := startStream(conn, "eager", 0, 0)
+	// every other full-duplex stream with a long inbound burst has an application that takes nothing from Inbound
+	// until everything submitted was written: sending must not wait for the inbound side to be consumed
+	gated := cs.Inbound >= 100 && !cs.Virtual && cs.MsgSeed%2 == 0
+	consumerMode := "eager"
+	if gated {
+		consumerMode = "gated"
+	}
+	s := startStream(conn, consumerMode, 0, 0)
 	if s == nil {
 		constructorWedged(c, "outbound")
 		return
@@ -349,6 +356,30 @@ func c11Run(c *fw.Ctx, cs *c11Case, vtWait func()) {
 		}(p)
 	}
 	close(start)
+	if gated {
+		prodDone := make(chan struct{})
+		go func() { wg.Wait(); close(prodDone) }()
+		c.Count("duplex_streams_with_unconsumed_inbound_backlog", 1)
+		if sched.Quiescent(30 * time.Second) {
+			written := 0
+			for _, e := range conn.Events() {
+				if e.Kind == "write" {
+					written += len(e.Data)
+				}
+			}
+			stuck := false
+			select {
+			case <-prodDone:
+			default:
+				stuck = true
+			}
+			if stuck || written < total {
+				c.Violation("outbound", "wedge", "sending-waits-for-inbound-consumption", fmt.Sprintf("%d inbound frames are waiting for an application that does not take them yet; every goroutine is parked, but only %d of the %d submitted bytes were written (producers still blocked: %v): sending depends on the inbound side being consumed\ncase: %+v", cs.Inbound, written, total, stuck, *cs))
+			}
+		}
+		close(s.gate)
+		<-prodDone
+	}
 	wg.Wait()
 	okQ := s.finish()
 	if !okQ {
